@@ -188,9 +188,9 @@ CHECKS["C14"] = dict(
          "and lambdify are compared; lambdify(...)(...) must equal the substituted diagram. Further legs: ZX diagrams "
          "with symbolic spider phases and scalars (Trace_ParamZX: substituted boxes, free symbols, and the lambdified "
          "diagram called on the numbers of a closing step), tensor diagrams of symbolic 2x2 boxes with bubbles and "
-         "daggers (Trace_ParamT: three value routes plus lambdify).",
+         "daggers, also built as classical gates on one bit (Trace_ParamT: three value routes plus lambdify, dagger flags).",
     note="Trusted: TLC, float comparison, sympy for extracting affine coefficients. ZX diagrams have no evaluation "
-         "in this version of the library: their leg is structural. Symbolic ClassicalGate entries are not in the model.",
+         "in this version of the library: their leg is structural.",
     ref="5/C14", technique="TLA+ spec + TLC behaviours (histories of substitutions), trace validation, exact reference values")
 
 CHECKS["C15"] = dict(
